@@ -34,6 +34,7 @@ type Case struct {
 	Spec     specgen.Desc `json:"spec"`
 	Dials    int          `json:"dials"`
 	FreshTr  bool         `json:"fresh_transport,omitempty"` // a new UTransport (new socket) per dial, same spec value
+	CloseBy  string       `json:"close_by,omitempty"`        // "" = the client closes each connection; "server" = the server does, the client re-dials at once
 	Server   ServerCfg    `json:"server"`
 	RTTms    int          `json:"rtt_ms"`
 	EchoSize int          `json:"echo"`
@@ -61,6 +62,9 @@ func genCase(t *rapid.T) Case {
 	c.Spec = specgen.Gen(t, specgen.Options{Bases: bases, CHLen: chlen})
 	c.Dials = rapid.SampledFrom([]int{1, 1, 2, 3}).Draw(t, "dials")
 	c.FreshTr = rapid.Bool().Draw(t, "fresh")
+	if rapid.IntRange(0, 2).Draw(t, "closeby") == 0 {
+		c.CloseBy = "server"
+	}
 	c.Server = ServerCfg{Retry: rapid.IntRange(0, 3).Draw(t, "retry") == 0, SmallWindows: rapid.IntRange(0, 3).Draw(t, "smallwin") == 0,
 		CIDLen: rapid.SampledFrom([]int{0, 0, 5, 8, 20}).Draw(t, "scid"), V1Only: rapid.Bool().Draw(t, "v1only")}
 	c.RTTms = rapid.SampledFrom([]int{2, 20, 100}).Draw(t, "rtt")
@@ -143,12 +147,22 @@ func runCase(c Case, u *vf.Unit) *vf.Verdict {
 
 	// echo server
 	srvDone := make(chan struct{})
+	closeReq := make(chan struct{}, 8)
 	go func() {
 		defer close(srvDone)
 		for {
 			conn, err := ln.Accept(ctx)
 			if err != nil {
 				return
+			}
+			if c.CloseBy == "server" {
+				go func() {
+					select {
+					case <-closeReq:
+						conn.CloseWithError(5, "server closes")
+					case <-conn.Context().Done():
+					}
+				}()
 			}
 			go func() {
 				str, err := conn.AcceptStream(ctx)
@@ -218,7 +232,26 @@ func runCase(c Case, u *vf.Unit) *vf.Verdict {
 		if cause := context.Cause(conn.Context()); cause != nil {
 			return connFail(c, w, u, i, "connection context", cause)
 		}
-		conn.CloseWithError(0, "")
+		if c.CloseBy == "server" {
+			// the application blocks in a stream Read; the moment it fails (the peer's CONNECTION_CLOSE was
+			// processed) it re-dials, as an HTTP client would - possibly before the old connection has finished
+			// shutting down
+			rerr := make(chan struct{})
+			if s2, err := conn.OpenStreamSync(ctx); err == nil {
+				go func() {
+					s2.Write([]byte{1})
+					io.ReadAll(s2) // the echo server never answers on this stream: returns when the connection dies
+					close(rerr)
+				}()
+			} else {
+				close(rerr)
+			}
+			closeReq <- struct{}{}
+			<-rerr
+			u.Class("closed-by-server")
+		} else {
+			conn.CloseWithError(0, "")
+		}
 		for _, a := range w.Router.AppliedFaults() {
 			if strings.Contains(a, "initial") && (strings.HasSuffix(a, "drop")) {
 				retransmitted = true
